@@ -22,6 +22,7 @@
 #include "filesettings.h"
 #include "settings.h"
 #include "timer.h"
+#include "verif_trace.h"
 
 #include <cassert>
 #include <cstddef>
@@ -50,6 +51,7 @@ unsigned int SingleExecutor::check()
     unsigned int c = 0;
 
     for (auto i = mFiles.cbegin(); i != mFiles.cend(); ++i) {
+        VERIF_EVT("Next", verif::kv("file", i->spath()));
         result += mCppcheck.check(*i);
         processedsize += i->size();
         ++c;
@@ -61,12 +63,14 @@ unsigned int SingleExecutor::check()
     // filesettings
     // check all files of the project
     for (const FileSettings &fs : mFileSettings) {
+        VERIF_EVT("Next", verif::kv("file", fs.file.spath()));
         result += mCppcheck.check(fs);
         ++c;
         if (!mSettings.quiet)
             reportStatus(c, mFileSettings.size(), c, mFileSettings.size());
     }
 
+    VERIF_EVT("SingleFilesDone", verif::kv("result", result));
     // TODO: show time after the whole program analysis
     // TODO: CppCheckExecutor::check_internal() is also invoking the whole program analysis - is it run twice?
     if (mCppcheck.analyseWholeProgram())
